@@ -309,6 +309,11 @@ func (fs *FileSink) pruneFiles() error {
 	pattern = filepath.Base(pattern)
 	entries, err := os.ReadDir(dir)
 	if err != nil {
+		if os.IsNotExist(err) {
+			// the directory is gone (open creates it again on demand): there
+			// is nothing to prune
+			return nil
+		}
 		return err
 	}
 
